@@ -35,7 +35,7 @@ def check_C16(tier):
     if not thorough:
         spawn = spawn[::2]
     for kind in ("unix", "unix-mode", "abstract", "tcp", "activate", "bridge",
-                 "unix-lib", "unix-mode-lib", "abstract-lib", "tcp-lib", "tcp6-lib", "tcp-localhost-lib"):
+                 "unix-lib", "unix-mode-lib", "abstract-lib", "tcp-lib", "tcp6-lib", "tcp-localhost-lib", "activated-nonblocking"):
         cs = seqs if kind in ("unix", "unix-mode", "abstract", "tcp") else spawn
         fails, summ, _ = run_vh(vh, ["transport", "--kind=" + kind], cs, timeout=900, hang_is_failure=True, death_is_failure=True)
         res.add_failures(fails, "transport-" + kind)
